@@ -26,7 +26,7 @@ CONFIG = {
     "C17": dict(gen=["Char"], drivers=["Char", "HKPot"]),
     "C02": dict(gen=["Units"], drivers=["IsoState"]),
     "C03": dict(gen=["Units"], drivers=["Access"]),
-    "C04": dict(gen=[], drivers=[]),
+    "C04": dict(gen=[], drivers=["Cache"]),
     "C05": dict(gen=[], drivers=["Json", "Identity"]),
     "C06": dict(gen=[], drivers=["Json"]),
     "C07": dict(gen=["Formats"], drivers=["TextCodec"]),
